@@ -58,6 +58,22 @@ SITES = [
     _s("sseIncrement", _R + "_fourier_projection", ("augassign", "sse", 0),
        {"xp.mean(xp.abs(xp.abs(exit_wave_fft) - diffraction_patterns) ** 2)": "meanTerm", "xp.sum(diffraction_patterns ** 2)": "sumD2"},
        ["meanTerm", "sumD2"], ["real"]),
+    # the same projection formula in the other operator classes (theorems transfer through `projection_symbol_shared`)
+    _s("projSimWarmup", "SimultaneousPtychographicOperator._warmup_fourier_projection", ("callarg", "ifft2", 0, 0),
+       {"diffraction_forward": "(d : ℂ)", "exit_wave_forward_fft": "z"}, ["d", "z"], ["cplx"], param_types={"d": "ℝ"}),
+    _s("projSimForward", "SimultaneousPtychographicOperator._fourier_projection", ("callarg", "ifft2", 0, 0),
+       {"diffraction_forward": "(d : ℂ)", "exit_wave_forward_fft": "z"}, ["d", "z"], ["cplx"], param_types={"d": "ℝ"}),
+    _s("projSimReverse", "SimultaneousPtychographicOperator._fourier_projection", ("callarg", "ifft2", 0, 1),
+       {"diffraction_reverse": "(d : ℂ)", "exit_wave_reverse_fft": "z"}, ["d", "z"], ["cplx"], param_types={"d": "ℝ"}),
+    _s("projMixedWarmup", "MixedStatePtychographicOperator._warmup_fourier_projection", ("callarg", "ifft2", 0, 0),
+       {"diffraction_patterns": "(d : ℂ)", "exit_wave_fft": "z"}, ["d", "z"], ["cplx"], param_types={"d": "ℝ"}),
+    _s("projMultislice", "MultislicePtychographicOperator._fourier_projection", ("callarg", "ifft2", 0, 0),
+       {"diffraction_patterns": "(d : ℂ)", "exit_wave_fft": "z"}, ["d", "z"], ["cplx"], param_types={"d": "ℝ"}),
+    # mixed-state projection: every mode is rescaled by D / sqrt(sum_k |F psi_k|^2)
+    _s("mixedAmplitude", "MixedStatePtychographicOperator._fourier_projection", ("assign", "amplitude_modification", 0),
+       {"diffraction_patterns": "(d : ℂ)", "intensity_norm": "(norm : ℂ)"}, ["d", "norm"], ["cplx"], param_types={"d": "ℝ", "norm": "ℝ"}),
+    _s("mixedSymbol", "MixedStatePtychographicOperator._fourier_projection", ("callarg", "ifft2", 0, 0),
+       {"amplitude_modification[None]": "amp", "exit_waves_fft": "z"}, ["amp", "z"], ["cplx"]),
     _s("objectTerm", _R + "_update_function", ("augassign", "objects[object_indices]", 0), _UPD_PM,
        ["step", "reg", "amax", "p", "psi", "psiNew"], ["cplx"], inline=_UPD_INLINE, param_types=_UPD_T),
     _s("probeTerm", _R + "_update_function", ("augassign", "probes", 0), _UPD_PM,
